@@ -11,13 +11,13 @@ P = {
          'CFG order automaton + dominance + def-use + field-ownership enumeration (ast)'),
  'C02': ('static decision of R2.1-R2.10: mutate=>log=>notify post-dominance at every dict mailbox mutation, expunge record never overwritten, no suspension inside the consume window, every session method returns a merged selection, merge applies both halves, maildir full diff, flag-key mirror coherence, diff machinery reads snapshots not live objects, change-log buckets / UID records dropped only when empty / absent, deferred removals dropped only by applying them',
          'post-dominance pairing + suspension-window path query + return-value provenance (ast CFG)'),
- 'C03': ('static decision of R3.1-R3.8: verbatim provenance of message bytes append->store->fetch, slice-bound soundness (no -1 stop sentinel), len/write agreement of Writeable subclasses, header/body partition, partial-range arithmetic, size source, COPY payload provenance, whole-section getters return the stored part, rfc822 unwrapping only for named parts, BODYSTRUCTURE octet counts measure what BODY[part] returns',
+ 'C03': ('static decision of R3.1-R3.9: verbatim provenance of message bytes append->store->fetch, slice-bound soundness (no -1 stop sentinel), len/write agreement of Writeable subclasses, header/body partition, partial-range arithmetic, size source, COPY payload provenance, whole-section getters return the stored part, rfc822 unwrapping only for named parts, BODYSTRUCTURE octet counts measure what BODY[part] returns',
          'taint/provenance over allowed byte operations + slice-shape matching + sibling agreement (ast)'),
  'C04': ('static decision of R4.1-R4.7: dict UID allocator discipline (form, lock on the same receiver, key = fresh UID), maildir allocator under with_write with increment, UIDNEXT derivation, APPENDUID/COPYUID pairing dataflow, ascending-UID enumeration behind COPYUID, maildir MOVE drops the source record, UID list read under its lock',
          'field-ownership enumeration + lock-scope containment + def-use (ast)'),
  'C05': ('static decision of R5.1-R5.9: command class hierarchy vs hand-transcribed RFC state table, handler exhaustiveness, gate dominance on every route to a handler, select-clears-first, close-always-deselects, logout shape, refused=>untouched, state-field ownership, every CLOSE return has deselected, truth-tested state classes define no __len__/__bool__',
          'table agreement + CFG dominance + who-may-call enumeration (ast)'),
- 'C06': ('static decision of R6.1-R6.16: loop progress of every parser loop, exception-escape sets at the parse and execution boundaries, recursion-cycle bounds on the resolved call graph, BYE on every loop-body escape, bound-before-allocation dominance, None-flow, continuation requests only where handled, stream-collecting loops test the fresh line, run-time regexes escape client text and do not let the client choose the number of unbounded quantifiers, int() only of bounded digit runs, third-party SASL calls under a ValueError handler, escape set of the connection\'s own I/O helpers vs the handlers of the command loop (with a regex totality fact), frozen may-raise facts about the stdlib email package (header registry, SingleAddressHeader.address) handled where called',
+ 'C06': ('static decision of R6.1-R6.18: loop progress of every parser loop, exception-escape sets at the parse and execution boundaries, recursion-cycle bounds on the resolved call graph, BYE on every loop-body escape, bound-before-allocation dominance, None-flow, continuation requests only where handled, stream-collecting loops test the fresh line, run-time regexes escape client text and do not let the client choose the number of unbounded quantifiers, int() only of bounded digit runs, third-party SASL calls under a ValueError handler, escape set of the connection\'s own I/O helpers vs the handlers of the command loop (with a regex totality fact), frozen may-raise facts about the stdlib email package (header registry, SingleAddressHeader.address) handled where called',
          'loop-progress fixpoint + exception-escape analysis + SCCs over a resolved call graph (ast, re._parser)'),
  'C07': ('static decision of R7.1-R7.16: quoted-string admission guard vs grammar, escape set language, direct QuotedString constructions, modutf7 output range, CRLF termination of every response writer, echo charset of tag/atom patterns, balanced delimiters, literal length agreement, client-chosen FETCH section parts echoed through a quoting serialiser, lazily rendered values written only with their content provider set, loaded-message accessors contain the no-content signal, variable-length ENVELOPE/BODYSTRUCTURE lists only when non-empty, disposition position is (type params)/NIL, multipart only with parts, ENVELOPE/BODYSTRUCTURE writers vs the RFC 3501 grammar table position by position, status response text never empty',
          'regex-language facts (re._parser) + guard truth tables + post-dominance (ast)'),
@@ -25,7 +25,7 @@ P = {
          'must-pass-through taint on the call graph + dominance (ast)'),
  'C09': ('static decision of R9.1-R9.9: session-field ownership, authenticate->authorize->session chain, verify-or-raise in every backend authenticate, authorize truth table, LOGINDISABLED guard dominance, failure leaves fields untouched, every _login return dominated by authenticate, privilege read from the authenticated identity only, no retained mutable default argument',
          'field ownership + dominance + boolean truth tables (ast)'),
- 'C10': ('static decision of R10.1-R10.9: STORE mode table, permitted-flag dataflow, addressed-set dataflow, EXPUNGE=delete(find_deleted), COPY/APPEND field preservation, \\Seen table, * resolution, MOVE/COPY sibling agreement, backend update unconditional per addressed message, membership fields mirrored between insertion and removal, flag arithmetic on flags read from the store',
+ 'C10': ('static decision of R10.1-R10.10: STORE mode table, permitted-flag dataflow, addressed-set dataflow, EXPUNGE=delete(find_deleted), COPY/APPEND field preservation, \\Seen table, * resolution, MOVE/COPY sibling agreement, backend update unconditional per addressed message, membership fields mirrored between insertion and removal, flag arithmetic on flags read from the store',
          'table extraction + def-use + sibling agreement (ast)'),
  'C11': ('static decision of R11.1-R11.7: exception-contract agreement across MailboxSet siblings, wildcard translation regex language vs RFC, INBOX guards, INBOX rename leaves INBOX, transfer functions of the offset-set wildcard matcher, existence check on every maildir get_mailbox return, component-boundary prefix for Maildir++ inferiors, line-oriented subscriptions file keeps names intact',
          'exception-escape sets + regex-language facts + dominance (ast, re._parser)'),
@@ -39,7 +39,7 @@ P = {
          'pairing/ordering over CFG + who-may-call enumeration (ast)'),
  'C16': ('static decision of R16.1-R16.6: un-timed wait guarded by a freshness predicate evaluated after arming, every mutation notifies, IDLE loop typestate, finite poll timeout, predicate not evaluated after the position was overwritten, every collected IDLE update written, per-command marks reset on failure',
          'control-dependence + suspension-window path query (ast CFG)'),
- 'C17': ('static decision of R17.1-R17.9: \\Recent removed at every entry to the settable universe, stored/session recent complementarity, claim pairs with clearing without suspension, read-only never a recipient, RECENT count sources, claimed set materialised, COPY does not carry the source recent mark (both backends), maildir claim only after its own rename succeeded',
+ 'C17': ('static decision of R17.1-R17.11: \\Recent removed at every entry to the settable universe, stored/session recent complementarity, claim pairs with clearing without suspension, read-only never a recipient, RECENT count sources, claimed set materialised, COPY does not carry the source recent mark (both backends), maildir claim only after its own rename succeeded',
          'def-use + truth-table complementarity + dominance (ast)'),
  'C18': ('static decision of R18.1-R18.9: cached raw span = consumed span, literal branches converge, command word normalisation, writer/reader format tables agree, modified-UTF-7 encoder escapes and range tests, all line input through the {n+}-collecting reader, parsers take string arguments by value not by wire spelling, modified-UTF-7 run encoder is base64 over UTF-16BE of the whole run (not the utf-7 codec), nothing stripped by a class containing base64 digits',
          'slice-bound equality + table agreement (ast, re._parser)'),
